@@ -15,7 +15,8 @@ RULE = ("meshes from: generated arc/Voronoi tissues and sub-tissues with holes/b
         "tessellations of random centres; each followed by a random sequence (1..4) of generate_mesh(ne=2..12, "
         "replace_short_edges on/off) and Frame construction, under three reference-holding schedules (none / gc disabled "
         "during the call / previous results kept alive until after the next step). distinct = (source, cells, vertices, "
-        "operation sequence, schedule); non-trivial = at least one cell")
+        "operation sequence, schedule); non-trivial = at least one cell"
+        ' Added after the seeded rounds: thinned rasters with a free closed ring, WKT polygons far from the origin; a builder that raises on a valid input is a violation.')
 MIN_DECISIVE = {"quick": 150, "thorough": 2000}
 REQUIRED_COUNTERS = ["post:generate_mesh", "post:Frame", "post:SurfaceEvolver.create_lattice", "post:Skeleton.create_lattice",
                      "post:wkt.create_lattice", "post:tessellation.create_lattice"]
